@@ -281,6 +281,65 @@ def build(case):
     return fa
 
 
+def large_case(rng, kinds=("enfa", "nfa", "dfa"), vcs=("str", "int")):
+    """an ordinary-sized automaton: ten to fourteen states (two-digit numbers in names and positions), a spine from the
+    start state to a final state with chords, loops and a few epsilon moves, several final states; with sampled long
+    words (members found by random walks, and perturbations of them)"""
+    kind = rng.choice(kinds)
+    n = rng.randint(10, 14)
+    k = 2
+    order = list(range(n))
+    rng.shuffle(order)
+    trans = []
+    for i in range(n - 1):
+        trans.append([order[i], rng.randrange(k), order[i + 1]])
+    for _ in range(rng.randint(3, 8)):
+        p_, q_ = rng.randrange(n), rng.randrange(n)
+        a_ = EPSID if (kind == "enfa" and rng.random() < 0.25) else rng.randrange(k)
+        trans.append([p_, a_, q_])
+    if kind == "dfa":
+        seen, det = set(), []
+        for t in trans:
+            if (t[0], t[1]) not in seen:
+                seen.add((t[0], t[1]))
+                det.append(t)
+        trans = det
+    uniq = []
+    for t in trans:
+        if t not in uniq:
+            uniq.append(t)
+    start = [order[0]] + ([order[rng.randrange(n)]] if kind != "dfa" and rng.random() < 0.3 else [])
+    final = sorted({order[-1], order[rng.randrange(n)], order[n // 2]})
+    case = {"kind": kind, "n": n, "k": k, "start": sorted(set(start)), "final": final, "trans": uniq, "extra": [],
+            "vc": rng.choice(list(vcs)), "token": True, "large": True}
+    if rng.random() < 0.5:
+        case["shuffle"] = rng.randrange(1 << 30)
+    # sampled long words: random walks that end in a final state, and one-symbol perturbations
+    step = {}
+    for p_, a_, q_ in uniq:
+        step.setdefault(p_, []).append((a_, q_))
+    longs = []
+    for _ in range(30):
+        cur, w = rng.choice(case["start"]), []
+        for _ in range(rng.randint(4, 12)):
+            if cur not in step:
+                break
+            a_, cur = rng.choice(step[cur])
+            if a_ != EPSID:
+                w.append(a_)
+        longs.append(w)
+        if w:
+            w2 = list(w)
+            w2[rng.randrange(len(w2))] = rng.randrange(k)
+            longs.append(w2)
+    case["long_words"] = [x for x in longs if len(x) <= 10][:40]
+    return case
+
+
+def long_words(case):
+    return [[aval(case, j) for j in w] for w in case.get("long_words", ())]
+
+
 def ref_of_case(case):
     """the reference automaton straight from the case record (what the caller ADDED), or None when the record does
     not determine it (a DFA record with several start states or two successors for one state and symbol)"""
